@@ -38,6 +38,11 @@ Hog(site, why)   == Out("resource", site, why)
 (* an earlier event may already have crashed at (asite, awhy): the outcome is no longer decided, both explanations are kept *)
 Maybe(o, asite, awhy) == IF o.res \in {"acc", "rej"} \/ (o.res = "unk" /\ o.why = "") THEN UnkW(asite, awhy)
                          ELSE [o EXCEPT !.res = "unk", !.asite = asite, !.awhy = awhy]
+\* families of hazard sites already repaired in the tree (known_findings.json, "fixed:" entries for C01/C17): the as-is
+\* machine is the tree as it stands, i.e. with these guards; the XMI converter's readers are not repaired (F15b, F15c)
+TreeFixed == {"smf", "mus", "sel"}
+R(f) == Repaired \/ f \in TreeFixed
+FixF(f, asis, repaired) == IF R(f) THEN repaired ELSE asis
 Fix(asis, repaired) == IF Repaired THEN repaired ELSE asis
 Safe(o) == o.res \in {"acc", "rej", "unk"}
 
@@ -122,28 +127,28 @@ ParseEvent(V, fmt, p, status, lev, had) ==        \* had: an earlier event of th
     IF ~q.ok THEN EvOut(Rej)
     ELSE CASE q.cls = "small"  -> IF q.np + q.v > L THEN EvOut(Rej) ELSE Ev(q.np + q.v, status, lev, TRUE)
            [] q.cls = "big"    -> EvOut(Rej)
-           [] q.cls = "neg"    -> IF Repaired THEN EvOut(Rej)          \* repair: compare length with end - ptr
+           [] q.cls = "neg"    -> IF R("smf") THEN EvOut(Rej)          \* repair: compare length with end - ptr
                                   ELSE IF q.np - q.v < 0 THEN          \* the next read is below the buffer:
                                          (IF q.v - q.np <= 16 THEN EvOut(Crash("readVarLenEx", "sysex-length-wrap"))   \* inside the allocator's red zone
                                           ELSE EvOut(UnkW("?", "sysex-length-wrap")))               \* somewhere in the heap: undefined from here on
                                   ELSE Ev(q.np - q.v, status, lev, TRUE)     \* the cursor moves BACK: events are parsed again
-           [] q.cls = "negfar" -> EvOut(Fix(Crash("readVarLenEx", "sysex-length-wrap"), Rej))
-           [] OTHER            -> EvOut(Fix(Unk, Rej))
+           [] q.cls = "negfar" -> EvOut(FixF("smf", Crash("readVarLenEx", "sysex-length-wrap"), Rej))
+           [] OTHER            -> EvOut(FixF("smf", Unk, Rej))
   ELSE IF b0 = 255 THEN                           \* meta: type byte read without a bound check
-    IF p + 1 >= L THEN EvOut(Fix(Crash("parseEvent", "meta-type-read"), Rej))
+    IF p + 1 >= L THEN EvOut(FixF("smf", Crash("parseEvent", "meta-type-read"), Rej))
     ELSE LET ty == VAt(V, p + 1)
              q == Vlq(V, p + 2) IN
       IF ~q.ok THEN EvOut(Rej)
       ELSE CASE q.cls = "small" ->
                   IF q.np + q.v > L THEN EvOut(Rej)
                   ELSE IF ty = 47 THEN EvEot(lev)
-                  ELSE IF ty = 228 /\ q.v = 0 /\ ~Repaired /\ (lev \/ ~had)     \* FF E4 00 = internal "loop stack begin" subtype without its data byte:
+                  ELSE IF ty = 228 /\ q.v = 0 /\ ~R("smf") /\ (lev \/ ~had)     \* FF E4 00 = internal "loop stack begin" subtype without its data byte:
                        THEN (IF lev THEN [Ev(q.np + q.v, status, TRUE, FALSE) EXCEPT !.alt = TRUE]       \* loop state not modelled: may crash here, may go on
                              ELSE EvOut(Crash("buildSmfTrackData", "loopstack-no-data")))                  \* data[0] of a vector that never held anything (null)
                   ELSE Ev(q.np + q.v, status, lev \/ ty \in LoopMeta, q.v > 0 /\ ty # 6)
              [] q.cls = "big" -> EvOut(Rej)
-             [] q.cls \in {"neg", "negfar"} -> EvOut(Fix(Crash("parseEvent", "meta-length-wrap"), Rej))   \* check wraps, std::string(ptr, 2^64-k) throws
-             [] OTHER -> EvOut(Fix(Unk, Rej))
+             [] q.cls \in {"neg", "negfar"} -> EvOut(FixF("smf", Crash("parseEvent", "meta-length-wrap"), Rej))   \* check wraps, std::string(ptr, 2^64-k) throws
+             [] OTHER -> EvOut(FixF("smf", Unk, Rej))
   ELSE
     LET run == b0 < 128
         b == IF run THEN (IF status = 0 THEN 128 ELSE status) ELSE b0
@@ -191,15 +196,15 @@ Chunks(I, p, k, acc) ==
            lo == BE16(I, p + 6)
            av == N(I) - (p + 8) IN
     \* rawTrackData[tk].resize(declared length) happens before the length is compared with what the file has
-    IF hi >= 8192 THEN [k |-> "out", t |-> <<>>, o |-> Fix(Hog("parseSMF", "declared-track-length"), Rej)]          \* >= 512 MiB zero-filled
-    ELSE IF hi >= 2048 THEN [k |-> "out", t |-> <<>>, o |-> Fix(Unk, Rej)]                 \* 128..512 MiB: depends on the allocator
+    IF hi >= 8192 THEN [k |-> "out", t |-> <<>>, o |-> FixF("smf", Hog("parseSMF", "declared-track-length"), Rej)]          \* >= 512 MiB zero-filled
+    ELSE IF hi >= 2048 THEN [k |-> "out", t |-> <<>>, o |-> FixF("smf", Unk, Rej)]                 \* 128..512 MiB: depends on the allocator
     ELSE IF hi > 0 \/ lo > av THEN [k |-> "out", t |-> <<>>, o |-> Rej]
     ELSE Chunks(I, p + 8 + lo, k - 1, Append(acc, <<p + 8, p + 8 + lo>>))
 
 ParseSMF(I, off, fmt) ==
   IF N(I) - off < 14 THEN Rej
   ELSE IF ~Match(I, off, MThd6) THEN Rej
-  ELSE IF BE16(I, off + 12) = 0 /\ Repaired THEN Rej              \* repair: refuse a division of 0
+  ELSE IF BE16(I, off + 12) = 0 /\ R("smf") THEN Rej              \* repair: refuse a division of 0
   ELSE LET ch == Chunks(I, off + 14, BE16(I, off + 10), <<>>) IN
     IF ch.k = "out" THEN ch.o
     ELSE IF \A i \in DOMAIN ch.t : ch.t[i][1] = ch.t[i][2] THEN Rej     \* "Empty track data" (also no track at all)
@@ -220,7 +225,7 @@ ParseCMF(I) ==
            ticks == LE16(I, 12)
            insCount == LE16(I, 36) IN
     IF insCount > 0 /\ Min(insStart, n) + 16 * insCount > n THEN Rej
-    ELSE IF ticks = 0 /\ Repaired THEN Rej
+    ELSE IF ticks = 0 /\ R("smf") THEN Rej
     ELSE IF musStart >= n THEN Rej
     ELSE LET w == Walk(View(I, musStart, n, <<>>), "cmf", FALSE).o IN
          IF w.res = "acc" THEN (IF ticks = 0 THEN UnkW("Optim", "division-zero") ELSE Rej)    \* parsed, then refused by LoadMIDI_post ("doesn't support CMF"); ticks 0: see ParseSMF
@@ -246,7 +251,7 @@ DetectRSXX(I) == At(I, 0) >= 93 /\ At(I, 0) < 128 /\ N(I) > At(I, 0) /\ Match(I,
 ---------------------------------------------------------------------------
 (* Convert_mus2midi: the score walk; operands and delay bytes are read without comparing with the score end *)
 MusView(I) == View(I, 0, N(I), <<>>)
-MusOob == Fix(Crash("Convert_mus2midi", "read-past-score"), Rej)
+MusOob == FixF("mus", Crash("Convert_mus2midi", "read-past-score"), Rej)
 RECURSIVE MusWalk(_, _, _, _)
 RECURSIVE MusDelay(_, _, _, _, _)
 MusWalk(I, cur, end, steps) ==
@@ -255,7 +260,7 @@ MusWalk(I, cur, end, steps) ==
   ELSE LET ev == At(I, cur)
            ty == (ev \div 16) % 8
            c1 == cur + 1
-           lim == IF Repaired THEN end ELSE N(I)      \* what a read is allowed to touch
+           lim == IF R("mus") THEN end ELSE N(I)      \* what a read is allowed to touch
            Rd(q) == q < lim IN
     CASE ty \in {0, 2} -> IF ~Rd(c1) THEN MusOob ELSE MusDelay(I, c1 + 1, end, ev, steps)
       [] ty = 1 -> IF ~Rd(c1) THEN MusOob
@@ -263,6 +268,7 @@ MusWalk(I, cur, end, steps) ==
                    ELSE MusDelay(I, c1 + 1, end, ev, steps)
       [] ty = 3 -> IF ~Rd(c1) THEN MusOob
                    ELSE IF At(I, c1) >= 15 THEN Rej
+                   ELSE IF R("mus") THEN MusDelay(I, c1 + 1, end, ev, steps)         \* a system event is one byte (repaired: c1fac2f)
                    ELSE IF ~Rd(c1 + 1) THEN MusOob ELSE MusDelay(I, c1 + 2, end, ev, steps)
       [] ty = 4 -> IF ~Rd(c1) THEN MusOob
                    ELSE IF At(I, c1) # 0 /\ At(I, c1) >= 15 THEN Rej
@@ -271,7 +277,7 @@ MusWalk(I, cur, end, steps) ==
       [] OTHER -> Rej
 MusDelay(I, cur, end, ev, steps) ==
   IF ev < 128 THEN MusWalk(I, cur, end, steps + 1)
-  ELSE LET V == View(I, 0, IF Repaired THEN end ELSE N(I), <<>>)
+  ELSE LET V == View(I, 0, IF R("mus") THEN end ELSE N(I), <<>>)
            t == VlqEnd(V, cur) IN                     \* do ... while(*cur++ & 128)
        IF t < 0 THEN MusOob ELSE MusWalk(I, t + 1, end, steps + 1)
 ParseMUS(I) ==
@@ -304,14 +310,14 @@ Sat(x) == IF x > Far THEN Far ELSE IF x < 0 - Far THEN 0 - Far ELSE x
 XChk(pos, k, S) == IF pos + k >= 0 THEN pos + k > S ELSE TRUE
 XPosLt(pos, S) == pos >= 0 /\ pos < S
 XCanRead(pos, n, S) == pos >= 0 /\ pos + n < S
-XCrash(site) == Fix(Crash(site, "unchecked-read"), Rej)
+XCrash(site) == FixF("xmi", Crash(site, "unchecked-read"), Rej)
 XOut(o) == [k |-> "out", o |-> o, tracks |-> 0, pos |-> 0, num |-> 0, clean |-> TRUE, ppqn |-> 0]
 
 RECURSIVE XInfoLoop(_, _, _, _, _)
 XInfoLoop(I, pos, i, len, steps) ==           \* for (i = 4; i < len; i++) over the chunks of FORM XDIR
   LET S == XS(I) IN
   IF ~ULt(i, len) \/ XChk(pos, 10, S) THEN [XOut(Acc) EXCEPT !.k = "ok"]
-  ELSE IF steps > S \div 8 + 64 THEN XOut(Fix(Unk, Rej))
+  ELSE IF steps > S \div 8 + 64 THEN XOut(FixF("xmi", Unk, Rej))
   ELSE IF pos < 0 THEN XOut(XCrash("xmi2mid_copy"))
   ELSE LET cl == U32At(I, pos + 4)
            i1 == UAdd(i, 8) IN
@@ -319,8 +325,8 @@ XInfoLoop(I, pos, i, len, steps) ==           \* for (i = 4; i < len; i++) over 
       LET sk == UEven(cl) IN
       IF AsI32(sk) = 0 - 8 THEN
         \* skipsrc(-8): the cursor is back on the same chunk and i advances by 1 per round: len - i rounds
-        (IF len[1] - i[1] >= 4096 THEN XOut(Fix(Hog("xmi2mid_ParseXMI", "chunk-length-loop"), Rej))       \* >= 2^28 rounds
-         ELSE IF len[1] - i[1] >= 16 THEN XOut(Fix(Unk, Rej))                        \* 2^20 .. 2^28 rounds: seconds, not decided here
+        (IF len[1] - i[1] >= 4096 THEN XOut(FixF("xmi", Hog("xmi2mid_ParseXMI", "chunk-length-loop"), Rej))       \* >= 2^28 rounds
+         ELSE IF len[1] - i[1] >= 16 THEN XOut(FixF("xmi", Unk, Rej))                        \* 2^20 .. 2^28 rounds: seconds, not decided here
          ELSE [XOut(Acc) EXCEPT !.k = "ok"])
       ELSE XInfoLoop(I, Sat(pos + 8 + AsI32(sk)), UAdd(UAddU(i1, sk), 1), len, steps + 1)
     ELSE IF cl[1] = 0 /\ cl[2] < 2 THEN [XOut(Acc) EXCEPT !.k = "ok"]
@@ -363,7 +369,7 @@ XEvents(I, pos, tset, tempo, clean, steps) ==
   LET S == XS(I)
       Done(p) == [XOut(Acc) EXCEPT !.k = "ok", !.pos = p, !.clean = clean, !.ppqn = (tempo * 3) \div 25000] IN
   IF ~XPosLt(pos, S) THEN Done(pos)
-  ELSE IF steps > S + 8 THEN XOut(Fix(Unk, Rej))
+  ELSE IF steps > S + 8 THEN XOut(FixF("xmi", Unk, Rej))
   ELSE IF pos < N(I) /\ InLongRep(I, pos) /\ ~UnitAllLow(I) THEN XOut(Unk)
   ELSE LET q == XDeltaEnd(I, pos) IN
     IF q < 0 THEN XOut(XCrash("xmi2mid_read1"))          \* no end-of-track: the delta reader runs into the end of the block
@@ -404,7 +410,7 @@ XTracks(I, pos, num, tracks, clean, steps) ==
   LET S == XS(I)
       Fin == [XOut(Acc) EXCEPT !.k = "ok", !.num = num, !.clean = clean] IN
   IF num = tracks \/ ~XPosLt(pos, S) THEN Fin
-  ELSE IF steps > S \div 8 + 64 THEN XOut(Fix(Unk, Rej))
+  ELSE IF steps > S \div 8 + 64 THEN XOut(FixF("xmi", Unk, Rej))
   ELSE IF ~XCanRead(pos, 4, S) THEN XOut(XCrash("xmi2mid_copy"))
   ELSE IF ~XCanRead(pos + 4, 4, S) THEN XOut(XCrash("xmi2mid_read4"))
   ELSE LET form == XMatch(I, pos, FORM)
@@ -426,7 +432,7 @@ XTracks(I, pos, num, tracks, clean, steps) ==
                   XOut(XCrash(IF XCanRead(p + 2 + 6 * j, 2, S) THEN "xmi2mid_read4le" ELSE "xmi2mid_read2"))
            ELSE XTracks(I, nxt, num, tracks, clean, steps + 1))
       ELSE IF ~XMatch(I, b, EVNT) THEN
-        (IF Sat(p + AsI32(UEven(len))) = pos THEN XOut(Fix(Hog("xmi2mid_ExtractTracksFromXmi", "chunk-length-loop"), Rej))    \* skipsrc(-(8 or 20)): same chunk for ever, the loop has no counter
+        (IF Sat(p + AsI32(UEven(len))) = pos THEN XOut(FixF("xmi", Hog("xmi2mid_ExtractTracksFromXmi", "chunk-length-loop"), Rej))    \* skipsrc(-(8 or 20)): same chunk for ever, the loop has no counter
          ELSE XTracks(I, Sat(p + AsI32(UEven(len))), num, tracks, clean, steps + 1))
       ELSE LET e == XEvents(I, p, FALSE, 500000, TRUE, 0) IN
         IF e.k = "out" THEN e
@@ -439,7 +445,7 @@ ParseXMI(I, sel) ==
   ELSE LET t == XTracks(I, h.pos, 0, h.tracks, TRUE, 0) IN
     IF t.k = "out" THEN t.o
     ELSE IF t.num # h.tracks THEN Rej
-    ELSE IF sel < 0 /\ ~Repaired THEN Crash("parseXMI", "song-index")       \* m_rawSongsData[-1]: only ">= size" is clamped
+    ELSE IF sel < 0 /\ ~R("sel") THEN Crash("parseXMI", "song-index")       \* m_rawSongsData[-1]: only ">= size" is clamped
     ELSE IF ~t.clean THEN Unk                                 \* converted data bytes >= 0x80 / system statuses: re-parse not modelled
     ELSE Acc
 
